@@ -80,6 +80,16 @@ CHECKS["C16"] = dict(
 
 exec(open(os.path.join(VERIF, "tools", "manifest_entries.py")).read())
 
+# disclosures from the second-pass audit (appended to level_note so that a re-sync of an entry from notes/Cxx.md cannot lose them)
+EXTRA_NOTES = {
+ "C11": "Second-pass audit: the numeric fields are read as the C code reads them (leading decimal digits, reduced mod 2^32; specNum in Spec/Users.lean adopts this), so a table entry whose uid/gid field is not a canonical number ('1001junk', '4294968297') is delivered under the number so read - only uid 0 after that reading is refused, gid 0 never; 'exactly the uid/gid the table assigns' is therefore stated for canonical fields. Local parts are non-empty and NUL-free. The cdb writer and reader models share one hash function although the C code has two (cdbmake_hashadd in cdbmake_hash.c for the writer, cdb_hash in cdb_hash.c for the reader): that the two C functions agree is tied by correspondence only (byte-exact comparison of the compiled file with the writer model, lookups of every key through the real cdb_seek; an independently seeded change to cdb_hash, signed char, is caught this way), not by a theorem. 'Every way the child can end' is relative to the modelled single-call faults; pipe/slurpclose/wait failures and out-of-memory exits are not modelled (all are deferrals in the code).",
+ "C09": "Second-pass audit: 'unparseable' in the relay theorems (noUpgrade, rspawnSound) is the code's own scan rule (an output such as K NUL Z NUL relays K); end to end this is harmless because C09_output_shape / C09_end_to_end show qmail-remote never emits such output. Commands are assumed to fit the 1024-byte output buffer. decCode reads the first three characters ('2500 ok' is 250), as smtpcode() does.",
+ "C15": "Second-pass audit: expiry, bounded time, no-starvation and nothing-lost are proved in the atomic-pass history model only; the interrupted-pass model (SchedPass: monotone clock, no arrivals) carries the back-off theorems, and the two are related by examples, not by a general refinement.",
+}
+for _k, _v in EXTRA_NOTES.items():
+    if _k in CHECKS and _v not in CHECKS[_k]["note"]:
+        CHECKS[_k] = dict(CHECKS[_k]); CHECKS[_k]["note"] = CHECKS[_k]["note"] + " " + _v
+
 PENDING = {}
 
 def main():
